@@ -17,6 +17,10 @@ from ..report import Obligation, Report
 TABLE = {
     'C01': [('C05', {'R05.6': 'R01.13'},
              'a work directory that still holds files of a dead attempt is published as part of the next result: the stored value is not what the computation yields')],
+    'C05': [('C07', {'R07.7': 'R05.8'},
+             'a recomputed directory result that lands inside (or is merged into) the old one leaves a visible result that is neither the old nor the new value')],
+    'C14': [('C16', {'R16.5': 'R14.8', 'R16.6': 'R14.9'},
+             'the in-memory cache is one of the caches the property speaks about: a stored None / falsy value is a stored value (returned, not recomputed)')],
     'C12': [('C07', {'R07.7': 'R12.2'},
              'a directory result that is moved *into* the old directory (instead of replacing it) lives at <key>/<key>_tmp/: later chains find the stale files under the 1.4.0 location')],
     'C13': [('C07', {'R07.2': 'R13.6', 'R07.4': 'R13.7'},
